@@ -108,7 +108,13 @@ def run_one(sid, props):
             out["errors"]["patch"] = msg[-200:]
             return out
         env = dict(os.environ, SDPVERIF_REPO=dst, SDPVERIF_EVIDENCE_DIR=os.path.join(tmp, "ev"))
+        own = re.sub(r"^R\d", "", sid.split("-")[0])
+        # the check of the property the change was written for runs first; when it fires the other checks are not needed for the
+        # verdict (set SEED_ALL=1 to run them all the same)
+        props = sorted(props, key=lambda p_: (p_ != own, p_))
         for p in props:
+            if out["fired"].get(own) and p != own and not os.environ.get("SEED_ALL"):
+                break
             try:
                 r = subprocess.run([PY, "-m", "sdpverif", "check", p, "--tier", "quick"], cwd=VERIF, env=env, capture_output=True, text=True, timeout=1500)
             except subprocess.TimeoutExpired:
